@@ -299,7 +299,11 @@ func propertyFuncs(w *World, p string) (keys []string) {
 			continue
 		}
 		in := hasTag(fc.Tags, p) || p == "C08" // the safety sweep covers every function under contract
-		for _, c := range append(append([]*Clause{}, fc.Requires...), fc.Ensures...) {
+		cls := append(append([]*Clause{}, fc.Requires...), fc.Ensures...)
+		for _, acs := range fc.AtCalls {
+			cls = append(cls, acs...)
+		}
+		for _, c := range cls {
 			if hasTag(c.Tags, p) {
 				in = true
 			}
@@ -732,6 +736,7 @@ func (w *World) writersObligations(p string) []*Obligation {
 		out = append(out, o)
 	}
 	out = append(out, w.neverClosedObligations(p)...)
+	out = append(out, w.closeOnlyObligations(p)...)
 	return out
 }
 
@@ -783,6 +788,67 @@ func (w *World) neverClosedObligations(p string) []*Obligation {
 			if len(offenders) > 0 {
 				o.Status, o.Solver, o.Goal = "sat", "syntactic", "false"
 				o.Output = "close() found: " + strings.Join(offenders, "; ")
+			}
+			out = append(out, o)
+		}
+	}
+	return out
+}
+
+// closeOnlyObligations: `closeonly T.f` - no send in the module targets a channel loaded from T.f (so a receive from
+// it completes only because it was closed).
+func (w *World) closeOnlyObligations(p string) []*Obligation {
+	if p != "C08" && p != "C12" && p != "C06" {
+		return nil
+	}
+	var out []*Obligation
+	fromField := func(v ssa.Value, f string) bool {
+		if u, ok := v.(*ssa.UnOp); ok {
+			if fa, ok := u.X.(*ssa.FieldAddr); ok {
+				return fieldClass(fa.X.Type().Underlying().(*types.Pointer).Elem(), fa.Field) == f
+			}
+		}
+		return false
+	}
+	for _, gd := range w.cs.Guards {
+		if gd.Kind != "closeonly" {
+			continue
+		}
+		for _, f := range gd.Fields {
+			var offenders []string
+			for key, fn := range w.funcs {
+				if fn.Blocks == nil {
+					continue
+				}
+				pk := fn.Pkg
+				if pk == nil && fn.Parent() != nil {
+					pk = fn.Parent().Pkg
+				}
+				if pk == nil || !strings.HasPrefix(pk.Pkg.Path(), modPath) {
+					continue
+				}
+				for _, b := range fn.Blocks {
+					for _, ins := range b.Instrs {
+						switch in := ins.(type) {
+						case *ssa.Send:
+							if fromField(in.Chan, f) {
+								offenders = append(offenders, shortKey(key)+" ("+w.prog.Fset.Position(ins.Pos()).String()+")")
+							}
+						case *ssa.Select:
+							for _, ss := range in.States {
+								if ss.Dir == types.SendOnly && fromField(ss.Chan, f) {
+									offenders = append(offenders, shortKey(key)+" ("+w.prog.Fset.Position(ins.Pos()).String()+")")
+								}
+							}
+						}
+					}
+				}
+			}
+			sort.Strings(offenders)
+			o := &Obligation{Name: "closeonly:" + shortKey(f), Fn: "closeonly", Kind: "closeonly", Tags: []string{"C08", "C12", "C06"}, Goal: "true", Src: "nothing is sent on the channel in " + shortKey(f) + " (a receive from it means it was closed)", Status: "trivial"}
+			if len(offenders) > 0 {
+				o.Status, o.Solver, o.Goal = "sat", "syntactic", "false"
+				o.Output = "send found: " + strings.Join(offenders, "; ")
 			}
 			out = append(out, o)
 		}
